@@ -30,6 +30,7 @@ type c18PageProg struct {
 	Name, File                     string
 	Strs, Ints, Bools, Kids, Lists []string
 	Raws                           []c18RawHole
+	ItemOf                         string // "<Type>, list hole k" for the element program of a list hole
 	UsesGA                         bool
 	GAID                           uint64
 	GADesc                         string
@@ -42,6 +43,7 @@ const (
 	c18LProg = iota
 	c18LSlice
 	c18LOpaque
+	c18LForbidden // a component local of the parent, seen from an item program
 )
 
 type c18Local struct {
@@ -49,7 +51,8 @@ type c18Local struct {
 	prog  string
 	elems []string
 	def   string
-	ver   int // bumped by every assignment inside an opaque statement
+	ver   int     // bumped by every assignment inside an opaque statement
+	lit   *string // a value local whose current definition is a string literal of the source
 }
 
 type c18Tr struct {
@@ -60,6 +63,8 @@ type c18Tr struct {
 	locals    map[string]*c18Local
 	p         *c18PageProg
 	idx       [5]map[string]int // strs, ints, bools, kids, lists
+	items     []c18PageProg     // the element programs of its list holes
+	item      string            // item mode: the slice local that collects what one iteration appends
 }
 
 func c18Fail(format string, a ...interface{}) { panic(c18Untr{fmt.Sprintf(format, a...)}) }
@@ -234,10 +239,13 @@ func (t *c18Tr) strLit(e ast.Expr) (string, bool) {
 	case *ast.ParenExpr:
 		return t.strLit(x.X)
 	case *ast.Ident:
-		if t.locals[x.Name] == nil {
-			if v, ok := t.consts[x.Name]; ok {
-				return v, true
+		if l := t.locals[x.Name]; l != nil {
+			// a local that was given a literal on this path and has not been assigned since
+			if l.kind == c18LOpaque && l.lit != nil && l.ver == 0 {
+				return *l.lit, true
 			}
+		} else if v, ok := t.consts[x.Name]; ok {
+			return v, true
 		}
 	case *ast.BinaryExpr:
 		if x.Op == token.ADD {
@@ -399,6 +407,8 @@ func (t *c18Tr) comp(e ast.Expr) string {
 				return l.prog
 			case c18LSlice:
 				c18Fail("slice local %s in a component position", x.Name)
+			case c18LForbidden:
+				c18Fail("element mentions the component local %s of the enclosing body", x.Name)
 			}
 			return t.kidHole(e)
 		}
@@ -450,7 +460,7 @@ func (t *c18Tr) slice(e ast.Expr) []string {
 }
 
 func c18LeanList(xs []string) string { return "[" + strings.Join(xs, ", ") + "]" }
-func c18Seqs(xs []string) string { return "(Prog.seqs " + c18LeanList(xs) + ")" }
+func c18Seqs(xs []string) string     { return "(Prog.seqs " + c18LeanList(xs) + ")" }
 
 // the constructors of html/core: parameter kinds s(tring) c(omponent) i(nt) b(ool) a(ttrs)
 // C (slice of components); a trailing * marks the variadic parameter
@@ -763,6 +773,12 @@ func (t *c18Tr) bindOne(name string, rhs ast.Expr, def string) {
 			}
 		}
 		t.noCompLocals(rhs, "definition of "+name)
+		if bl, ok := rhs.(*ast.BasicLit); ok && bl.Kind == token.STRING {
+			if v, err := strconv.Unquote(bl.Value); err == nil {
+				t.locals[name] = &c18Local{kind: c18LOpaque, def: def, lit: &v}
+				return
+			}
+		}
 	}
 	t.locals[name] = &c18Local{kind: c18LOpaque, def: def}
 }
@@ -981,14 +997,215 @@ func (t *c18Tr) ret(r *ast.ReturnStmt) string {
 			return t.comp(se.X)
 		}
 	}
+	// the raw write helpers of package html: everything after the writer is written as it is
+	if id, ok := call.Fun.(*ast.Ident); ok && t.locals[id.Name] == nil && len(call.Args) >= 2 && !call.Ellipsis.IsValid() {
+		if a, ok := call.Args[0].(*ast.Ident); ok && a.Name == "w" {
+			switch id.Name {
+			case "writeString":
+				if len(call.Args) == 2 {
+					return "(.raw " + t.rexp(call.Args[1], "html.writeString") + ")"
+				}
+			case "writeSprintf":
+				return c18Seqs(t.sprintfPieces(call.Args[1:], "html.writeSprintf"))
+			}
+		}
+	}
 	c18Fail("return of %s", c18ExprText(r.Results[0]))
 	return ""
+}
+
+// sprintfPieces: the literal pieces of the format and one raw hole per argument
+func (t *c18Tr) sprintfPieces(a []ast.Expr, sink string) []string {
+	format, ok := t.strLit(a[0])
+	if !ok {
+		c18Fail("format of a Sprintf helper is not a literal")
+	}
+	args := a[1:]
+	var parts []string
+	lit := ""
+	flush := func() {
+		if lit != "" {
+			parts = append(parts, "(.raw (.lit "+c18LeanBytes(lit)+"))")
+			lit = ""
+		}
+	}
+	for i := 0; i < len(format); i++ {
+		if format[i] != '%' {
+			lit += string(format[i])
+			continue
+		}
+		i++
+		if i >= len(format) {
+			c18Fail("format ends in %%")
+		}
+		switch format[i] {
+		case '%':
+			lit += "%"
+		case 's', 'd':
+			if len(args) == 0 {
+				c18Fail("format has more verbs than arguments")
+			}
+			flush()
+			parts = append(parts, "(.raw "+t.rexp(args[0], sink)+")")
+			args = args[1:]
+		default:
+			c18Fail("verb %%%c in a Sprintf helper", format[i])
+		}
+	}
+	flush()
+	if len(args) != 0 {
+		c18Fail("format has fewer verbs than arguments")
+	}
+	return parts
+}
+
+// writerStmt: `n += appendString(w, e)` / `appendComponent(w, x)` / `appendSprintf(w, fmt, …)` — the
+// body writes piece by piece; the pieces are collected under the name of the writer
+func (t *c18Tr) writerStmt(s ast.Stmt) ([]string, bool) {
+	as, ok := s.(*ast.AssignStmt)
+	if !ok || as.Tok != token.ADD_ASSIGN || len(as.Lhs) != 1 || len(as.Rhs) != 1 {
+		return nil, false
+	}
+	n, ok := as.Lhs[0].(*ast.Ident)
+	if !ok || t.locals[n.Name] == nil || t.locals[n.Name].kind != c18LOpaque {
+		return nil, false
+	}
+	call, ok := as.Rhs[0].(*ast.CallExpr)
+	if !ok || len(call.Args) < 2 || call.Ellipsis.IsValid() {
+		return nil, false
+	}
+	f, ok := call.Fun.(*ast.Ident)
+	if !ok || t.locals[f.Name] != nil {
+		return nil, false
+	}
+	if a, ok := call.Args[0].(*ast.Ident); !ok || a.Name != "w" {
+		return nil, false
+	}
+	if l := t.locals["w"]; l == nil || l.kind != c18LSlice {
+		return nil, false
+	}
+	var out []string
+	switch {
+	case f.Name == "appendString" && len(call.Args) == 2:
+		out = []string{"(.raw " + t.rexp(call.Args[1], "html.appendString") + ")"}
+	case f.Name == "appendComponent" && len(call.Args) == 2:
+		out = []string{t.comp(call.Args[1])}
+	case f.Name == "appendSprintf":
+		out = t.sprintfPieces(call.Args[1:], "html.appendSprintf")
+	default:
+		return nil, false
+	}
+	t.locals[n.Name].ver++
+	return out, true
+}
+
+// c18IsCondAppend: `if cond { defs…; xs = append(xs, e…) }`, handled as a conditional element
+func c18IsCondAppend(t *c18Tr, is *ast.IfStmt) bool {
+	if is.Init != nil || is.Else != nil {
+		return false
+	}
+	_, _, ok := t.bindsThenAppend(is.Body.List)
+	return ok
+}
+
+func c18HasReturn(n ast.Node) bool {
+	found := false
+	ast.Inspect(n, func(m ast.Node) bool {
+		if _, isLit := m.(*ast.FuncLit); isLit {
+			return false
+		}
+		if _, ok := m.(*ast.ReturnStmt); ok {
+			found = true
+		}
+		return !found
+	})
+	return found
+}
+
+func c18Concat(a, b []ast.Stmt) []ast.Stmt {
+	out := make([]ast.Stmt, 0, len(a)+len(b))
+	return append(append(out, a...), b...)
+}
+
+func c18CloneLocals(m map[string]*c18Local) map[string]*c18Local {
+	out := map[string]*c18Local{}
+	for k, l := range m {
+		c := *l
+		c.elems = append([]string{}, l.elems...)
+		out[k] = &c
+	}
+	return out
+}
+
+// noShadow: the statements of a branch are translated in one list with what follows the branch, so
+// a definition inside the branch must not hide a local of the enclosing body
+func (t *c18Tr) noShadow(stmts []ast.Stmt) {
+	for _, s := range stmts {
+		switch x := s.(type) {
+		case *ast.AssignStmt:
+			if x.Tok == token.DEFINE {
+				for _, l := range x.Lhs {
+					if id, ok := l.(*ast.Ident); ok && id.Name != "_" && t.locals[id.Name] != nil {
+						c18Fail("a branch that returns redefines %s", id.Name)
+					}
+				}
+			}
+		case *ast.DeclStmt:
+			if gd, ok := x.Decl.(*ast.GenDecl); ok {
+				for _, sp := range gd.Specs {
+					if vs, ok := sp.(*ast.ValueSpec); ok {
+						for _, id := range vs.Names {
+							if t.locals[id.Name] != nil {
+								c18Fail("a branch that returns redefines %s", id.Name)
+							}
+						}
+					}
+				}
+			}
+		}
+	}
+}
+
+func c18Mentions(e ast.Expr, name string) bool {
+	found := false
+	ast.Inspect(e, func(n ast.Node) bool {
+		if id, ok := n.(*ast.Ident); ok && id.Name == name {
+			found = true
+		}
+		return true
+	})
+	return found
 }
 
 func (t *c18Tr) block(stmts []ast.Stmt) string {
 	for i, s := range stmts {
 		if r, ok := s.(*ast.ReturnStmt); ok {
+			if t.item != "" {
+				c18Fail("return inside a loop")
+			}
+			var written []string
+			if l := t.locals["w"]; l != nil && l.kind == c18LSlice {
+				written = l.elems
+			}
+			// `return n, nil` after the pieces were written one by one
+			if len(r.Results) == 2 {
+				if id, ok := r.Results[0].(*ast.Ident); ok && t.locals[id.Name] != nil && t.locals[id.Name].kind == c18LOpaque {
+					if e, ok := r.Results[1].(*ast.Ident); ok && e.Name == "nil" && t.locals["nil"] == nil {
+						return c18Seqs(written)
+					}
+				}
+			}
+			if len(written) > 0 {
+				return c18Seqs(append(append([]string{}, written...), t.ret(r)))
+			}
 			return t.ret(r)
+		}
+		if pieces, ok := t.writerStmt(s); ok {
+			t.locals["w"].elems = append(t.locals["w"].elems, pieces...)
+			continue
+		}
+		if br, ok := s.(*ast.BranchStmt); ok && t.item != "" && br.Tok == token.CONTINUE && br.Label == nil {
+			return c18Seqs(t.locals[t.item].elems) // the end of this iteration
 		}
 		if t.bind(s) {
 			continue
@@ -1032,22 +1249,163 @@ func (t *c18Tr) block(stmts []ast.Stmt) string {
 				}
 				desc := "range " + c18FullText(rs.X) + ": " + strings.Join(ds, ", ")
 				t.locals = saved
+				if item := t.itemProgram(rs, args); item != "" {
+					desc = "range " + c18FullText(rs.X) + ": every element is the program " + item + " = " + strings.Join(ds, ", ")
+				}
 				desc += t.whereExpr(rs.X, map[string]bool{})
 				k := t.hole(4, desc)
 				t.locals[name].elems = append(t.locals[name].elems, fmt.Sprintf("(.kids %d)", k))
 				continue
 			}
+			if name, item := t.loopItem(rs); item != "" {
+				desc := "range " + c18FullText(rs.X) + ": every iteration is the program " + item + t.whereExpr(rs.X, map[string]bool{})
+				t.markAssigned(rs.Body)
+				k := t.hole(4, desc)
+				t.locals[name].elems = append(t.locals[name].elems, fmt.Sprintf("(.kids %d)", k))
+				continue
+			}
+		}
+		// `x = e` at the top level of the path that is being translated: a new definition of x
+		if as, ok := s.(*ast.AssignStmt); ok && as.Tok == token.ASSIGN && len(as.Lhs) == 1 && len(as.Rhs) == 1 {
+			if id, ok := as.Lhs[0].(*ast.Ident); ok && t.locals[id.Name] != nil && t.locals[id.Name].kind != c18LForbidden {
+				if t.locals[id.Name].kind == c18LSlice {
+					if cl, ok := as.Rhs[0].(*ast.CompositeLit); !ok || !c18IsSliceType(cl.Type) {
+						c18Fail("assignment to the slice local %s", id.Name)
+					}
+				}
+				if rid, ok := as.Rhs[0].(*ast.Ident); ok && rid.Name == "nil" && t.locals["nil"] == nil && t.locals[id.Name].kind == c18LProg {
+					t.locals[id.Name] = &c18Local{kind: c18LProg, prog: ".nil"} // core.NewComponents drops a nil item
+					continue
+				}
+				if !c18Mentions(as.Rhs[0], id.Name) { // `x = f(x)` stays an opaque reassignment
+					t.bindOne(id.Name, as.Rhs[0], c18FullText(as.Rhs[0]))
+					continue
+				}
+			}
+		}
+		// a branch that can return: translated by continuation, `.cond b (body ++ rest) rest`
+		if is, ok := s.(*ast.IfStmt); ok && (t.exits(is) || (t.touches(is) && !c18IsCondAppend(t, is)) || t.assignsLit(is)) {
+			rest := stmts[i+1:]
+			thenStmts := c18Concat(is.Body.List, rest)
+			if is.Init != nil {
+				if is.Else != nil {
+					c18Fail("if with an initialiser and an else")
+				}
+				t.noShadow([]ast.Stmt{is.Init})
+				saved := t.snapshot()
+				if !t.bind(is.Init) {
+					c18Fail("if with an initialiser that is not a definition")
+				}
+				d := t.condDesc(is.Cond)
+				t.locals = saved
+				b := t.hole(2, d)
+				t.noShadow(is.Body.List)
+				base := t.snapshot()
+				then := t.block(c18Concat([]ast.Stmt{is.Init}, thenStmts))
+				t.locals = base
+				return fmt.Sprintf("(.cond %d %s %s)", b, then, t.block(rest))
+			}
+			b := t.hole(2, t.condDesc(is.Cond))
+			t.noShadow(is.Body.List)
+			base := t.snapshot()
+			then := t.block(thenStmts)
+			t.locals = base
+			var els []ast.Stmt
+			switch e := is.Else.(type) {
+			case nil:
+				els = rest
+			case *ast.BlockStmt:
+				t.noShadow(e.List)
+				els = c18Concat(e.List, rest)
+			default:
+				els = c18Concat([]ast.Stmt{e}, rest)
+			}
+			return fmt.Sprintf("(.cond %d %s %s)", b, then, t.block(els))
+		}
+		if sw, ok := s.(*ast.SwitchStmt); ok && (t.exits(sw) || t.touches(sw) || t.assignsLit(sw)) {
+			if sw.Init != nil {
+				c18Fail("switch with an initialiser and a return")
+			}
+			tag := ""
+			if sw.Tag != nil {
+				t.noCompLocals(sw.Tag, "switch tag")
+				tag = c18FullText(sw.Tag)
+			}
+			rest := stmts[i+1:]
+			type arm struct {
+				desc string
+				body []ast.Stmt
+			}
+			var arms []arm
+			var deflt []ast.Stmt
+			for _, cs := range sw.Body.List {
+				cc := cs.(*ast.CaseClause)
+				for _, b := range cc.Body {
+					ast.Inspect(b, func(n ast.Node) bool {
+						if _, isLit := n.(*ast.FuncLit); isLit {
+							return false
+						}
+						if _, isLoop := n.(*ast.ForStmt); isLoop {
+							return false
+						}
+						if _, isLoop := n.(*ast.RangeStmt); isLoop {
+							return false
+						}
+						if br, ok := n.(*ast.BranchStmt); ok && !(t.item != "" && br.Tok == token.CONTINUE && br.Label == nil) {
+							c18Fail("%s inside a switch that returns", br.Tok)
+						}
+						return true
+					})
+				}
+				t.noShadow(cc.Body)
+				if cc.List == nil {
+					deflt = cc.Body
+					if deflt == nil {
+						deflt = []ast.Stmt{}
+					}
+					continue
+				}
+				var ds []string
+				for _, e := range cc.List {
+					t.noCompLocals(e, "case expression")
+					if sw.Tag != nil {
+						ds = append(ds, tag+" == "+c18FullText(e))
+					} else {
+						ds = append(ds, c18FullText(e))
+					}
+				}
+				d := strings.Join(ds, " || ")
+				if sw.Tag != nil {
+					d += t.whereExpr(sw.Tag, map[string]bool{})
+				} else {
+					seen := map[string]bool{}
+					for _, e := range cc.List {
+						d += t.whereExpr(e, seen)
+					}
+				}
+				arms = append(arms, arm{d, cc.Body})
+			}
+			// cases that do nothing and are followed by nothing but the end of the switch
+			if len(deflt) == 0 {
+				for len(arms) > 0 && len(arms[len(arms)-1].body) == 0 {
+					arms = arms[:len(arms)-1]
+				}
+			}
+			base := t.snapshot()
+			var build func(k int) string
+			build = func(k int) string {
+				if k == len(arms) {
+					t.locals = c18CloneLocals(base)
+					return t.block(c18Concat(deflt, rest))
+				}
+				b := t.hole(2, arms[k].desc)
+				t.locals = c18CloneLocals(base)
+				then := t.block(c18Concat(arms[k].body, rest))
+				return fmt.Sprintf("(.cond %d %s %s)", b, then, build(k+1))
+			}
+			return build(0)
 		}
 		if is, ok := s.(*ast.IfStmt); ok && is.Init == nil && is.Else == nil {
-			if c18EndsWithReturn(is.Body) {
-				t.noCompLocals(is.Cond, "condition")
-				b := t.hole(2, t.describe(is.Cond))
-				saved := t.snapshot()
-				then := t.block(is.Body.List)
-				t.locals = saved
-				rest := t.block(stmts[i+1:])
-				return fmt.Sprintf("(.cond %d %s %s)", b, then, rest)
-			}
 			// `if cond { x := …; xs = append(xs, e) }`: a conditional element
 			if name, args, ok := t.bindsThenAppend(is.Body.List); ok {
 				t.noCompLocals(is.Cond, "condition")
@@ -1067,8 +1425,300 @@ func (t *c18Tr) block(stmts []ast.Stmt) string {
 		}
 		t.opaque(s)
 	}
+	if t.item != "" {
+		return c18Seqs(t.locals[t.item].elems)
+	}
 	c18Fail("no final return")
 	return ""
+}
+
+// exits: the statement can end the body that is being translated (a return; in a loop body also a
+// `continue` of that loop)
+func (t *c18Tr) exits(n ast.Node) bool {
+	if c18HasReturn(n) {
+		return true
+	}
+	if t.item == "" {
+		return false
+	}
+	found := false
+	ast.Inspect(n, func(m ast.Node) bool {
+		switch x := m.(type) {
+		case *ast.FuncLit, *ast.ForStmt, *ast.RangeStmt:
+			return false
+		case *ast.BranchStmt:
+			if x.Tok == token.CONTINUE && x.Label == nil {
+				found = true
+			}
+		}
+		return !found
+	})
+	return found
+}
+
+// assignsLit: the statement gives a string literal to a value local that holds a literal — the
+// branches are translated one by one, so that the local is a literal on every path
+func (t *c18Tr) assignsLit(n ast.Node) bool {
+	found := false
+	ast.Inspect(n, func(m ast.Node) bool {
+		switch x := m.(type) {
+		case *ast.FuncLit, *ast.ForStmt, *ast.RangeStmt:
+			return false
+		case *ast.AssignStmt:
+			if x.Tok == token.ASSIGN && len(x.Lhs) == 1 && len(x.Rhs) == 1 {
+				if id, ok := x.Lhs[0].(*ast.Ident); ok {
+					if l := t.locals[id.Name]; l != nil && l.kind == c18LOpaque && l.lit != nil {
+						if bl, ok := x.Rhs[0].(*ast.BasicLit); ok && bl.Kind == token.STRING {
+							found = true
+						}
+					}
+				}
+			}
+		}
+		return !found
+	})
+	return found
+}
+
+// touches: the statement mentions a local that is bound to a Prog or a slice
+func (t *c18Tr) touches(n ast.Node) bool {
+	found := false
+	ast.Inspect(n, func(m ast.Node) bool {
+		if id, ok := m.(*ast.Ident); ok {
+			if l := t.locals[id.Name]; l != nil && l.kind != c18LOpaque {
+				found = true
+			}
+		}
+		return !found
+	})
+	return found
+}
+
+// condDesc: the description of a branch condition; a slice local may only occur as `len(xs)`
+func (t *c18Tr) condDesc(cond ast.Expr) string {
+	lens := map[*ast.Ident]bool{}
+	var names []string
+	ast.Inspect(cond, func(m ast.Node) bool {
+		if c, ok := m.(*ast.CallExpr); ok && len(c.Args) == 1 {
+			if f, ok := c.Fun.(*ast.Ident); ok && f.Name == "len" && t.locals["len"] == nil {
+				if a, ok := c.Args[0].(*ast.Ident); ok {
+					if l := t.locals[a.Name]; l != nil && l.kind == c18LSlice {
+						lens[a] = true
+						names = append(names, a.Name)
+					}
+				}
+			}
+		}
+		return true
+	})
+	ast.Inspect(cond, func(m ast.Node) bool {
+		if id, ok := m.(*ast.Ident); ok && !lens[id] {
+			if l := t.locals[id.Name]; l != nil && l.kind != c18LOpaque {
+				c18Fail("condition mentions the component local %s", id.Name)
+			}
+			if id.Name == "w" {
+				c18Fail("condition mentions w")
+			}
+		}
+		return true
+	})
+	d := t.describe(cond)
+	for _, n := range names {
+		d += fmt.Sprintf(" [%s: the components collected so far, %d fixed and the list holes]", n, len(t.locals[n].elems))
+	}
+	return d
+}
+
+// markAssigned: the value locals a statement assigns to have a new value afterwards
+func (t *c18Tr) markAssigned(n ast.Node) {
+	ast.Inspect(n, func(m ast.Node) bool {
+		var lhs []ast.Expr
+		switch x := m.(type) {
+		case *ast.AssignStmt:
+			if x.Tok != token.DEFINE {
+				lhs = x.Lhs
+			}
+		case *ast.IncDecStmt:
+			lhs = []ast.Expr{x.X}
+		}
+		for _, l := range lhs {
+			for {
+				switch y := l.(type) {
+				case *ast.IndexExpr:
+					l = y.X
+					continue
+				case *ast.SelectorExpr:
+					l = y.X
+					continue
+				case *ast.StarExpr:
+					l = y.X
+					continue
+				}
+				break
+			}
+			if id, ok := l.(*ast.Ident); ok {
+				if loc := t.locals[id.Name]; loc != nil && loc.kind == c18LOpaque {
+					loc.ver++
+				}
+			}
+		}
+		return true
+	})
+}
+
+// loopItem: a loop body outside the simple shape (several appends, conditional appends, `continue`)
+// that builds one slice local: the body is a program of its own — what one iteration appends —
+// and the loop contributes a list hole with one such program per iteration
+func (t *c18Tr) loopItem(rs *ast.RangeStmt) (slice string, item string) {
+	var names []string
+	ast.Inspect(rs.Body, func(m ast.Node) bool {
+		if id, ok := m.(*ast.Ident); ok {
+			if l := t.locals[id.Name]; l != nil && l.kind != c18LOpaque {
+				dup := false
+				for _, n := range names {
+					dup = dup || n == id.Name
+				}
+				if !dup {
+					names = append(names, id.Name)
+				}
+			}
+		}
+		return true
+	})
+	if len(names) != 1 || t.locals[names[0]].kind != c18LSlice || t.item != "" {
+		return "", ""
+	}
+	if c18HasReturn(rs.Body) || t.touches(rs.X) {
+		return "", ""
+	}
+	p := c18PageProg{Name: fmt.Sprintf("%s_item%d", t.typ, len(t.items)), File: t.file,
+		ItemOf: fmt.Sprintf("%s, what one iteration of `range %s` appends to %s", t.typ, c18FullText(rs.X), names[0])}
+	sub := &c18Tr{file: t.file, typ: t.typ, sigs: t.sigs, consts: t.consts, coreInts: t.coreInts,
+		locals: map[string]*c18Local{}, p: &p, item: names[0]}
+	for i := range sub.idx {
+		sub.idx[i] = map[string]int{}
+	}
+	for k, l := range t.locals {
+		switch {
+		case l.kind == c18LOpaque:
+			c := *l
+			sub.locals[k] = &c
+		case k == names[0]:
+			sub.locals[k] = &c18Local{kind: c18LSlice}
+		default:
+			sub.locals[k] = &c18Local{kind: c18LForbidden}
+		}
+	}
+	for _, kv := range []ast.Expr{rs.Key, rs.Value} {
+		if id, ok := kv.(*ast.Ident); ok && id.Name != "_" {
+			sub.locals[id.Name] = &c18Local{kind: c18LOpaque, def: "element of " + c18FullText(rs.X)}
+		}
+	}
+	ok := func() (ok bool) {
+		defer func() {
+			if r := recover(); r != nil {
+				if _, isU := r.(c18Untr); !isU {
+					panic(r)
+				}
+				ok = false
+			}
+		}()
+		sub.markAssigned(rs.Body) // what the body assigns is carried from one iteration to the next
+		p.Term = sub.block(rs.Body.List)
+		return true
+	}()
+	if !ok || len(sub.items) > 0 {
+		return "", ""
+	}
+	t.items = append(t.items, p)
+	return names[0], p.Name
+}
+
+// c18BareHtmlNew: `NewX(…)` of package html — the element is the component X itself
+func c18BareHtmlNew(e ast.Expr) bool {
+	c, ok := e.(*ast.CallExpr)
+	if !ok {
+		return false
+	}
+	id, ok := c.Fun.(*ast.Ident)
+	return ok && strings.HasPrefix(id.Name, "New")
+}
+
+// itemProgram: when the element of `for … range E { defs…; xs = append(xs, e…) }` is more than a bare
+// NewX(…) of package html, the element expression is translated into a program of its own
+// (<Type>_item<k>), its holes described in terms of the loop variable. "" when every element is a
+// bare constructor call or the element is outside the fragment (then the list hole stays opaque).
+func (t *c18Tr) itemProgram(rs *ast.RangeStmt, args []ast.Expr) (name string) {
+	defs := map[string]ast.Expr{}
+	body := rs.Body.List[:len(rs.Body.List)-1]
+	for _, b := range body {
+		as := b.(*ast.AssignStmt)
+		if len(as.Lhs) == len(as.Rhs) {
+			for j, l := range as.Lhs {
+				if id, ok := l.(*ast.Ident); ok {
+					defs[id.Name] = as.Rhs[j]
+				}
+			}
+		}
+	}
+	allBare := true
+	for _, a := range args {
+		e := a
+		if id, ok := a.(*ast.Ident); ok && defs[id.Name] != nil {
+			e = defs[id.Name]
+		}
+		if !c18BareHtmlNew(e) {
+			allBare = false
+		}
+	}
+	if allBare {
+		return ""
+	}
+	p := c18PageProg{Name: fmt.Sprintf("%s_item%d", t.typ, len(t.items)), File: t.file,
+		ItemOf: fmt.Sprintf("%s, element of the list hole `range %s`", t.typ, c18FullText(rs.X))}
+	sub := &c18Tr{file: t.file, typ: t.typ, sigs: t.sigs, consts: t.consts, coreInts: t.coreInts,
+		locals: map[string]*c18Local{}, p: &p}
+	for i := range sub.idx {
+		sub.idx[i] = map[string]int{}
+	}
+	for k, l := range t.locals {
+		if l.kind == c18LOpaque {
+			c := *l
+			sub.locals[k] = &c
+		} else {
+			sub.locals[k] = &c18Local{kind: c18LForbidden}
+		}
+	}
+	for _, kv := range []ast.Expr{rs.Key, rs.Value} {
+		if id, ok := kv.(*ast.Ident); ok && id.Name != "_" {
+			sub.locals[id.Name] = &c18Local{kind: c18LOpaque, def: "element of " + c18FullText(rs.X)}
+		}
+	}
+	ok := func() (ok bool) {
+		defer func() {
+			if r := recover(); r != nil {
+				if _, isU := r.(c18Untr); !isU {
+					panic(r)
+				}
+				ok = false
+			}
+		}()
+		for _, b := range body {
+			sub.bind(b)
+		}
+		terms := sub.comps(args, false)
+		if len(terms) == 1 {
+			p.Term = terms[0]
+		} else {
+			p.Term = c18Seqs(terms)
+		}
+		return true
+	}()
+	if !ok || len(sub.items) > 0 {
+		return ""
+	}
+	t.items = append(t.items, p)
+	return p.Name
 }
 
 func (t *c18Tr) describeLoopElem(a ast.Expr) string {
@@ -1187,6 +1837,7 @@ func c18Pages() *c18PagesResult {
 			if ps == nil || len(ps.List) != 1 || len(ps.List[0].Names) != 1 || ps.List[0].Names[0].Name != "w" {
 				c18Fail("the writer parameter is not called w")
 			}
+			t.locals["w"] = &c18Local{kind: c18LSlice} // what is written to w piece by piece
 			p.Term = t.block(it.fd.Body.List)
 			return ""
 		}()
@@ -1195,12 +1846,14 @@ func c18Pages() *c18PagesResult {
 			continue
 		}
 		res.progs = append(res.progs, p)
+		res.progs = append(res.progs, t.items...)
 	}
+	sort.SliceStable(res.progs, func(i, j int) bool { return res.progs[i].Name < res.progs[j].Name })
 	c18PagesCache = res
 	return res
 }
 
-func c18PagePrograms() []c18PageProg  { return c18Pages().progs }
+func c18PagePrograms() []c18PageProg   { return c18Pages().progs }
 func c18PageUntranslated() [][2]string { return c18Pages().untr }
 
 func c18DocText(s string) string {
@@ -1255,6 +1908,9 @@ func init() {
 		}
 		for _, p := range progs {
 			fmt.Fprintf(&b, "/-- %s (%s)\n", p.Name, p.File)
+			if p.ItemOf != "" {
+				fmt.Fprintf(&b, "    element program: %s\n", c18DocText(p.ItemOf))
+			}
 			holes("string", p.Strs)
 			holes("int", p.Ints)
 			holes("bool", p.Bools)
